@@ -308,6 +308,7 @@ class Runner:
             unrepresentable_candidate_samples=[dict(name=v["name"], env=v["env"], scenario=v["spec"]["scenario"], params=v["spec"].get("params")) for v in self.unrepresentable_cex[:3]],
             unrepresentable_witnesses=sum(1 for l in leaves if l.get("unrepresentable")),
             known_finding_cells={k: len(v) for k, v in self.known_hits.items()},
+            known_finding_samples={k: [dict(scenario=v['spec']['scenario'], params=v['spec'].get('params'), env=v['env'], text=str(v.get('text'))[:400]) for v in vs[:3]] for k, vs in self.known_hits.items()},
             functions_encoded=functions,
             families=fam,
             families_not_run=[dict(scenario=s["scenario"], params=s.get("params")) for s in getattr(self, "not_run", [])],
